@@ -186,7 +186,10 @@ Definition cn_left (M : smat) (v : coneighbor) : coneighbor :=
   {| cn_shape := cn_shape v; cn_back := smul M (cn_back v); cn_fwd := cn_fwd v; cn_shared := false |}.
 Definition cn_right (v : coneighbor) (M : smat) : coneighbor :=
   {| cn_shape := cn_shape v; cn_back := cn_back v; cn_fwd := smul (cn_fwd v) M; cn_shared := false |}.
-(** _transpose: operator = CoNeighbor(self.backward) (shape from backward's rows), then both factors replaced by copies *)
+(** _transpose: operator = CoNeighbor(self.backward) (shape from backward's rows), then both factors replaced by copies.
+    Not modelled: that throw-away constructor runs check_format, which raises when backward has no stored entry
+    (as does the constructor proper on an empty adjacency); the harness keeps base matrices non-empty and reports
+    the transposition case. *)
 Definition cn_transpose (v : coneighbor) : coneighbor :=
   {| cn_shape := (s_nrow (cn_back v), s_nrow (cn_back v));
      cn_back := stranspose (cn_fwd v); cn_fwd := stranspose (cn_back v); cn_shared := false |}.
